@@ -1,5 +1,6 @@
 import St4sd.Model.Hash
 import St4sd.Model.HashCache
+import St4sd.Model.HashExe
 /-!
 Witnesses for C16 (machine-checked, `decide`): the inputs on which the code that exists violates the full
 statement.  `md5 := fun x => 'h' :: x` is a concrete *injective* stand-in, so none of the equalities below is
@@ -252,5 +253,43 @@ set_option maxRecDepth 4000 in
 /-- the strong hashes are not affected -/
 theorem strong_hash_of_producer_named_like_its_file :
     hashOfConsumer false "x".toList = hashOfConsumer false "merge".toList := by decide
+
+/-! ### reading the executable from the validated live configuration (not the code: `Source.liveConfiguration`)
+
+`single` runs the pathless `tool.sh` that the package ships in `bin/` (found through `PATH: $INSTANCE_DIR/bin:$PATH`);
+`many1` is a replica of `many`, declared with the same executable.  After validation the live configuration of the
+instance at `/i1` holds `/i1/bin/tool.sh`, the one at `/i2` holds `/i2/bin/tool.sh`. -/
+
+def toolProbe (base : String) : Probe :=
+  { which := some (base ++ "/bin/tool.sh").toList, real := [], ok := [(base ++ "/bin/tool.sh").toList] }
+
+def toolConf : Conf :=
+  { unrep := [((0, "single".toList), "tool.sh".toList), ((0, "many".toList), "tool.sh".toList)],
+    live := [((0, "single".toList), "tool.sh".toList), ((0, "many1".toList), "tool.sh".toList)] }
+
+def validatedAt (base : String) : Conf := toolConf.validate base.toList [toolProbe base, toolProbe base]
+
+def single : Comp := comp "single" 0 "tool.sh"
+def many1 : Comp := { comp "many1" 0 "tool.sh" with replica := some 1 }
+
+/-- with the live configuration as source the hash of `single` depends on where the instance lives, changes when
+the experiment is validated, and differs from the hash of the replica that does the same work … -/
+theorem live_executable_depends_on_location_and_validation :
+    hashOneFrom .liveConfiguration md5 false (validatedAt "/i1") [] single ≠
+      hashOneFrom .liveConfiguration md5 false (validatedAt "/i2") [] single
+    ∧ hashOneFrom .liveConfiguration md5 false (validatedAt "/i1") [] single ≠
+      hashOneFrom .liveConfiguration md5 false toolConf [] single
+    ∧ hashOneFrom .liveConfiguration md5 false (validatedAt "/i1") [] single ≠
+      hashOneFrom .liveConfiguration md5 false (validatedAt "/i1") [] many1 := by decide
+
+/-- … with the specification as source (the code) all of these are one hash -/
+theorem specification_executable_is_stable :
+    hashOneFrom .specification md5 false (validatedAt "/i1") [] single =
+      hashOneFrom .specification md5 false (validatedAt "/i2") [] single
+    ∧ hashOneFrom .specification md5 false (validatedAt "/i1") [] single =
+      hashOneFrom .specification md5 false toolConf [] single
+    ∧ hashOneFrom .specification md5 false (validatedAt "/i1") [] single =
+      hashOneFrom .specification md5 false (validatedAt "/i1") [] many1
+    ∧ (hashOneFrom .specification md5 false toolConf [] single).isSome = true := by decide
 
 end St4sd.C16.Witness
